@@ -252,7 +252,7 @@ def render(lines, rng=None, ops=(), eol="\n", conservative=True):
                     while part and part[0][0] == "ws":
                         part = part[1:]
                     if rng.random() < 0.2:
-                        emit(rng.choice(["", indent + "! between continuation lines"]), ())
+                        emit(rng.choice(["", "   ", indent + "! between continuation lines", "!", indent + "  "]), ())
                 tail = (" &" if not last else "")
                 if last:
                     emit_tokens(part, comment, stem, prefix)
@@ -348,7 +348,8 @@ def to_fixed(lines, rng, labelled_do=True, conservative=True):
             body = ln.raw.lstrip()[1:]
             if body[:1] in "<>!$":
                 body = " " + body
-            emit(rng.choice(["C", "c", "*", "!", "d", "D"]) + body, {ln.no})
+            # comment text may end in `&` (it is a comment, not a continued free-form line)
+            emit(rng.choice(["C", "c", "*", "!", "d", "D"]) + body + rng.choice(["", "", "", " &", "&", " & ! x"]), {ln.no})
             continue
         if i in dropped:
             # terminated by the shared CONTINUE emitted for the inner loop: that line stands for this END DO as well
@@ -357,6 +358,8 @@ def to_fixed(lines, rng, labelled_do=True, conservative=True):
                     last_n = n_
             lay.stem[last_n].add(ln.no)
             continue
+        if rng.random() < 0.04:
+            emit(rng.choice(["C", "c", "*", "d", "!"]) + rng.choice([" note", " call x(a, &", " integer :: i &", "     x = 1 &", " &"]), ())
         toks = [(k, s, oc, ln.no) for k, s, oc in ln.tokens]
         while toks and toks[0][0] == "ws":
             toks = toks[1:]
